@@ -77,7 +77,7 @@ def inputs(ctx, n, thorough):
     rng = ctx.rng
     out = []
     for i in range(n):
-        r = rng.random()
+        r = (i % 4 + rng.random()) / 4.0      # the four regions in turn, so that a short run covers each of them
         kind = rng.choice(["dna", "protein", "rna"])
         if r < 0.25:       # k-means region
             nseq, length = rng.choice([100, 101, 128, 160] + ([300] if thorough else [])), rng.choice([25, 60, 120])
